@@ -18,7 +18,6 @@ import (
 	"github.com/ovh/kmip-go/ttlv"
 
 	"verifharness/internal/report"
-	"verifharness/internal/rng"
 	"verifharness/internal/tree"
 )
 
@@ -116,16 +115,11 @@ func (n *xnode) toTree(enumTag int) (*tree.Item, error) {
 		}
 		tag = int(t)
 	} else {
-		found := false
-		for t := 0x420001; t < 0x420200; t++ {
-			if ttlv.TagString(t) == n.Name {
-				tag, found = t, true
-				break
-			}
-		}
+		t, found := vecTagOfName(n.Name)
 		if !found {
 			return nil, fmt.Errorf("unknown element name %q", n.Name)
 		}
+		tag = t
 	}
 	if enumTag == 0 {
 		enumTag = tag
@@ -146,10 +140,8 @@ func (n *xnode) toTree(enumTag int) (*tree.Item, error) {
 				name := strings.ReplaceAll(c.Attrs["value"], " ", "")
 				name = strings.ReplaceAll(name, ".", "_")
 				name = strings.ReplaceAll(name, "#", "_")
-				for t := 0x420001; t < 0x420200; t++ {
-					if ttlv.TagString(t) == name {
-						attrEnum = t
-					}
+				if t, ok := vecTagOfName(name); ok {
+					attrEnum = t
 				}
 			}
 			if c.Name == "AttributeValue" {
@@ -246,6 +238,21 @@ func (n *xnode) toTree(enumTag int) (*tree.Item, error) {
 	return it, nil
 }
 
+var vecNameTags map[string]int
+
+// vecTagOfName: element name → tag through the public ttlv.TagString over the standard tag range (the last tag
+// wins for a name that occurs twice, the first for toTree's own lookup: a name registered twice is C17's business).
+func vecTagOfName(name string) (int, bool) {
+	if vecNameTags == nil {
+		vecNameTags = map[string]int{}
+		for t := 0x4201FF; t >= 0x420001; t-- {
+			vecNameTags[ttlv.TagString(t)] = t
+		}
+	}
+	t, ok := vecNameTags[name]
+	return t, ok
+}
+
 var enumAliasMap map[int]int
 
 // enumAlias maps a field tag to the tag of the enumeration / bit mask TYPE stored in it when they differ
@@ -294,13 +301,17 @@ var (
 	vecVarRe = regexp.MustCompile(`"\$[A-Za-z0-9_]+"`)
 )
 
-func vectorCase(ctx *Ctx, file string, idx int, n *xnode, origin string) {
+// vectorCase judges one message; it reports whether the message was accepted and reproduced.
+func vectorCase(ctx *Ctx, file string, idx int, n *xnode, origin string) bool {
 	line := fmt.Sprintf("#vector %s %d %s %s", file, idx, origin, hexUp([]byte(n.String())))
 	ctx.current = line
 	want, err := n.toTree(0)
 	if err != nil {
-		ctx.Res.Count("vector.unreadable:" + err.Error())
-		return // the independent reader cannot interpret the vector (names unknown to the registry…): not judged here
+		ctx.Res.Count("vector.unreadable." + strings.SplitN(origin, ".", 2)[0])
+		if origin == "original" {
+			ctx.Res.Count("vector.unreadable:" + err.Error())
+		}
+		return false // the independent reader cannot interpret the vector (names unknown to the registry…): not judged here
 	}
 	doc := []byte(n.String())
 	var msg any
@@ -311,10 +322,14 @@ func vectorCase(ctx *Ctx, file string, idx int, n *xnode, origin string) {
 	}
 	derr, p := guard("UnmarshalXML", func() error { return ttlv.UnmarshalXML(doc, msg) })
 	key := fmt.Sprintf("vectors:%s#%d", file, idx)
-	if origin != "original" {
+	switch {
+	case origin == "spec":
+		key = "vectors:spec-variation"
+	case origin != "original":
 		key = "vectors:variation"
 	}
 	outcome := "ok"
+	good := false
 	switch {
 	case p != "":
 		outcome = "panic"
@@ -323,6 +338,9 @@ func vectorCase(ctx *Ctx, file string, idx int, n *xnode, origin string) {
 		outcome = "err"
 		if origin == "original" && supportedOps(n) {
 			ctx.Res.Violate(report.Violation{Property: "C04", Oracle: "vector-accepted", Key: key + ":rejected", Detail: "a conformance vector is rejected: " + derr.Error(), Line: line})
+		}
+		if origin == "spec" {
+			vecViolate(ctx, "vector-accepted", key+":rejected", "a conformance vector with optional elements added / removed as the specification allows is rejected: "+derr.Error(), line)
 		}
 	default:
 		out, p := guard("MarshalXML", func() []byte { return ttlv.MarshalXML(msg) })
@@ -341,83 +359,43 @@ func vectorCase(ctx *Ctx, file string, idx int, n *xnode, origin string) {
 			break
 		}
 		if !tree.Equal(want, got) {
-			ctx.Res.Violate(report.Violation{Property: "C04", Oracle: "vector-reproduced", Key: key + ":differs", Detail: "re-encoding does not reproduce the vector: " + firstDiff(want.Render(), got.Render()), Line: line})
+			vecViolate(ctx, "vector-reproduced", key+":differs", "re-encoding does not reproduce the vector: "+firstDiff(want.Render(), got.Render()), line)
+			break
+		}
+		good = true
+		// same elements and values; and where the vector names an enumeration value or mask bits, so does the re-encoding
+		if m := vecLexical(n, nodes[0]); m != "" {
+			good = false
+			vecViolate(ctx, "vector-lexical", key+":name-not-reproduced", "re-encoding does not reproduce the vector's lexical form: "+m, line)
 		}
 		// and the binary of the decoded message carries the same tree
 		bin, p := guard("MarshalTTLV", func() []byte { return ttlv.MarshalTTLV(msg) })
 		if p == "" {
 			if bt, err := tree.Decode(bin); err != nil || !tree.Equal(bt, want) {
+				good = false
 				ctx.Res.Violate(report.Violation{Property: "C04", Oracle: "vector-binary", Key: key + ":binary-differs", Detail: "binary encoding of the decoded vector differs from the vector's tree", Line: line})
 			}
 		}
 	}
 	ctx.Add(line, outcome, true, "")
 	ctx.Res.Count("vector." + origin + "." + outcome)
-}
-
-// vary produces value variations of a vector message. Zero values ("", 0, false) are not used: the
-// library's data model identifies the zero value of an optional element with its absence.
-func vary(r *rng.R, n *xnode) *xnode {
-	var clone func(x *xnode) *xnode
-	clone = func(x *xnode) *xnode {
-		c := &xnode{Name: x.Name, Attrs: map[string]string{}}
-		for k, v := range x.Attrs {
-			c.Attrs[k] = v
-		}
-		for _, ch := range x.Children {
-			c.Children = append(c.Children, clone(ch))
-		}
-		return c
-	}
-	c := clone(n)
-	var all []*xnode
-	var walk func(x *xnode)
-	walk = func(x *xnode) {
-		all = append(all, x)
-		for _, ch := range x.Children {
-			walk(ch)
-		}
-	}
-	walk(c)
-	// elements that determine the shape or the version gating of the message are left alone
-	structural := map[string]bool{"ProtocolVersionMajor": true, "ProtocolVersionMinor": true, "AttributeName": true, "BatchCount": true}
-	for k := 0; k < 2; k++ {
-		x := rng.Pick(r, all)
-		if structural[x.Name] {
-			continue
-		}
-		switch x.Attrs["type"] {
-		case "TextString":
-			x.Attrs["value"] = rng.Pick(r, []string{"a", "x y", "<&>\"'", "é€漢😀", "0x10", "true"})
-		case "Integer":
-			if _, err := parseNum(x.Attrs["value"], 32); err == nil {
-				x.Attrs["value"] = rng.Pick(r, []string{"-1", "2147483647", "-2147483648", "7"})
-			}
-		case "LongInteger":
-			x.Attrs["value"] = rng.Pick(r, []string{"-1", "9223372036854775807", "4503599627370496"})
-		case "ByteString":
-			x.Attrs["value"] = rng.Pick(r, []string{"00", "FF00", "0123456789ABCDEF01"})
-		case "Boolean":
-			x.Attrs["value"] = "true"
-		case "DateTime":
-			x.Attrs["value"] = rng.Pick(r, []string{"1970-01-01T00:00:00Z", "2038-01-19T03:14:08+00:00", "0001-01-01T00:00:00Z", "9999-12-31T23:59:59Z", "2001-02-03T04:05:06-07:00"})
-		case "Interval":
-			x.Attrs["value"] = rng.Pick(r, []string{"1", "4294967295"})
-		}
-	}
-	return c
+	return good
 }
 
 func init() {
 	register(&Engine{
 		Name: "vectors",
-		Rule: "every RequestMessage/ResponseMessage element of the OASIS conformance vector files under /repo/kmiptest/testdata (v1.0..v1.4), read by an independent XML reader, plus value variations (text, integers, byte strings, booleans, dates incl. time-zone forms, intervals) of each; decoded by the library, re-encoded to XML and to binary, and compared tree-for-tree with the vector; distinct = distinct message; nontrivial = all",
+		Rule: "every RequestMessage/ResponseMessage element of the OASIS conformance vector files under /repo/kmiptest/testdata (v1.0..v1.4), read by an independent XML reader; optional-element variations directed by a specification order pinned in the harness (Key Block, Key Wrapping Data / Specification, Encryption / MAC Signature Key Information, Cryptographic Parameters, headers: every single optional element, pairs, all, added or removed at the specification position, on every distinct occurrence); optional elements removed / added as the vectors themselves show them; value variations of every scalar type (text incl. markup and non-ASCII, integers, long and big integers, enumerations by other names / in hexadecimal / unregistered, masks, byte strings, dates incl. zone forms, intervals); decoded by the library, re-encoded to XML and to binary, and compared tree-for-tree with the (varied) vector, names of enumeration values and mask bits compared as text; floors on the number of vectors judged and on every variation class; distinct = distinct message; nontrivial = all",
 		Run:  runVectors,
 	})
 }
 
 func runVectors(ctx *Ctx) {
 	root := "/repo/kmiptest/testdata"
+	// dates are compared as instants, but pin what the engine assumes rather than inherit the machine's zone
+	savedLocal := time.Local
+	time.Local = time.UTC
+	defer func() { time.Local = savedLocal }()
 	if len(ctx.Replay) > 0 {
 		for _, l := range ctx.Replay {
 			f := strings.SplitN(l, " ", 5)
@@ -444,7 +422,16 @@ func runVectors(ctx *Ctx) {
 		return
 	}
 	now := time.Unix(1700000000, 0).UTC()
+	type vmsg struct {
+		rel string
+		idx int
+		n   *xnode
+	}
+	var msgs []vmsg
+	var good []*xnode
 	total := 0
+	st := newVecStats()
+	// pass 1: every vector message as shipped
 	for _, f := range files {
 		b, err := os.ReadFile(f)
 		if err != nil {
@@ -467,17 +454,101 @@ func runVectors(ctx *Ctx) {
 				continue
 			}
 			total++
-			vectorCase(ctx, rel, i, m, "original")
-			nv := 1
-			if ctx.Thor {
-				nv = 6
-			}
-			if ctx.Thor || total%4 == 0 {
-				for k := 0; k < nv; k++ {
-					vectorCase(ctx, rel, i, vary(ctx.R, m), "variation")
-				}
+			if vectorCase(ctx, rel, i, m, "original") {
+				// only messages the library accepts and reproduces are varied: a variation of a message of an unsupported
+				// operation says nothing
+				msgs = append(msgs, vmsg{rel, i, m})
+				good = append(good, m)
+				st.learn(m)
 			}
 		}
 	}
+	st.finish(good)
 	ctx.Res.Count(fmt.Sprintf("vector.files=%d", len(files)))
+	// the engine judges nothing when the independent reader cannot read the vectors or the library rejects them: floors
+	d := ctx.Res.Distribution
+	if n := total; n < 5000 || d["vector.unreadable.original"]*100 > n || len(good)*100 < n*95 {
+		ctx.Res.Fail(fmt.Sprintf("vectors: %d messages found, %d unreadable by the independent reader, %d accepted and reproduced: too few are judged (expected ≥ 5000 messages, ≤ 1%% unreadable, ≥ 95%% reproduced)", n, d["vector.unreadable.original"], len(good)))
+	}
+	// pass 2: optional elements added / removed as the specification allows, on every distinct occurrence of a pinned structure
+	maxPairs := 24
+	if ctx.Thor {
+		maxPairs = 400
+	}
+	for _, vm := range msgs {
+		ver := vecVersion(vm.n)
+		var locs []vecLoc
+		vecWalk(vm.n, func(n, parent *xnode, loc vecLoc) {
+			if _, ok := vecSpec[n.Name]; !ok || (n.Attrs["type"] != "" && n.Attrs["type"] != "Structure") {
+				return
+			}
+			if m := vecSpecCheck(n); m != "" {
+				if !st.specSeen["bad:"+m] {
+					st.specSeen["bad:"+m] = true
+					ctx.Res.Fail("vectors: the pinned specification order disagrees with " + vm.rel + ": " + m)
+				}
+				return
+			}
+			k := vm.n.Name + "|" + strconv.Itoa(ver) + "|" + n.String()
+			if parent != nil {
+				k += "|" + parent.Name
+			}
+			if st.specSeen[k] {
+				return
+			}
+			st.specSeen[k] = true
+			locs = append(locs, loc)
+		})
+		for _, loc := range locs {
+			ctx.Res.Count("vector.spec-node." + vecAt(vm.n, loc.path).Name)
+			for _, v := range vecSpecVariants(vm.n, loc.path, ver, maxPairs, ctx.R) {
+				vectorCase(ctx, vm.rel, vm.idx, v, "spec")
+			}
+		}
+	}
+	// pass 3: value variations and optional elements as the vectors themselves show them
+	every := 2
+	if ctx.Thor {
+		every = 1
+	}
+	for i, vm := range msgs {
+		if i%every != 0 {
+			continue
+		}
+		wants := []string{"", ""}
+		if ctx.Thor {
+			wants = []string{"remove", "add", "TextString", "Integer", "Enumeration", "ByteString", "DateTime", "", ""}
+		}
+		// the types few vectors contain are varied wherever they occur
+		wants = append(wants, "BigInteger", "LongInteger", "Interval", "Boolean")
+		for _, w := range wants {
+			if v, kind := st.vary(ctx.R, vm.n, w); v != nil {
+				vectorCase(ctx, vm.rel, vm.idx, v, "var."+kind)
+			}
+		}
+	}
+	// pass 4: every big integer of the vectors, at the byte boundaries of both signs (few vectors carry one)
+	for _, vm := range msgs {
+		var locs []vecLoc
+		vecWalk(vm.n, func(n, parent *xnode, loc vecLoc) {
+			if n.Attrs["type"] == "BigInteger" {
+				locs = append(locs, loc)
+			}
+		})
+		for j, loc := range locs {
+			for k, txt := range vecBigTexts {
+				if !ctx.Thor && (j+k)%3 != 0 {
+					continue
+				}
+				v := vecClone(vm.n)
+				vecAt(v, loc.path).Attrs["value"] = txt
+				vectorCase(ctx, vm.rel, vm.idx, v, "var.value.BigInteger")
+			}
+		}
+	}
+	for _, k := range []string{"vector.spec.ok", "vector.var.remove.ok", "vector.var.add.ok", "vector.var.value.Enumeration.ok", "vector.var.value.BigInteger.ok", "vector.var.value.TextString.ok", "vector.var.value.Integer.ok", "vector.var.value.DateTime.ok"} {
+		if d[k] < 20 {
+			ctx.Res.Fail(fmt.Sprintf("vectors: only %d cases of class %s (floor 20)", d[k], k))
+		}
+	}
 }
